@@ -703,7 +703,7 @@ func main() {
 	fw.Main(&fw.Prop{
 		ID: "C16",
 		Rule: "requirement strings rendered from a PEP 508 AST (names with mixed case and -_. runs, extras lists, bare and parenthesised specifier lists, markers, arbitrary space/tab choices), " +
-			"markers rendered from a grammar-stratified AST over all supported variables, all ten operators and per-variable literal pools, each with an extras set; plus byte-mutated and token-exhaustive malformed streams. " +
+			"markers rendered from a grammar-stratified AST over all supported variables, all ten operators and per-variable literal pools (incl. re-spellings of the environment's versions and their neighbours with extra/fewer trailing zero release segments, plain and with .postN/.devN/aN/rcN/.*, enumerated exhaustively as single comparisons on either side of every operator), each with an extras set; plus byte-mutated and token-exhaustive malformed streams. " +
 			"Resolver observation point: single guarded edge on a fresh resolver (resolve), and universes (probe universe) of 3-10 guarded requirements whose markers are near-identical variants of one base drawn from the environment values " +
 			"(white space inside/outside quoted literals, quote style, case inside literals, operand order, operator neighbour, redundant/moved parentheses, keyword swap, a quote that swallows a keyword), a second family added while all class-free variants have one reference truth value; placed in one requirement list or over 2-3 roots (own extras each) resolved in sequence on the one resolver; every edge checked against the reference and against the same marker on a fresh resolver. " +
 			"Non-trivial = distinct input accepted by the parser under test (dep508 ok / marker ok) resp. a universe whose class-free markers have different reference truth values.",
